@@ -462,10 +462,30 @@ theorem rtcFilter_nlri (s : Rtm) (p : VPath) (w : Bool) (old : Option VPath) (n0
         exact ho o rfl
       · rw [if_neg hio] at hx; cases hx
 
+/-- equal content (everything but the two identities): same NLRI, marker and communities -/
+theorem sameContent (a b : VPath)
+    (h : ({ a with uid := 0, root := 0 } == { b with uid := 0, root := 0 }) = true) :
+    a.nlri = b.nlri ∧ a.marker = b.marker ∧ a.ecs = b.ecs := by
+  have h' := eq_of_beq h
+  cases a; cases b
+  simp only [VPath.mk.injEq] at h'
+  obtain ⟨_, _, _, _, h5, h6, _, _, h9, h10⟩ := h'
+  simp only [VPath.nlri]
+  subst h5; subst h6
+  exact ⟨rfl, h9, h10⟩
+
+/-- `Path.Equal`: the same object (when path objects are told apart by uid) or equal content -/
+theorem sameAs_content (a b : VPath) (huid : a.uid = b.uid → a = b) (h : a.sameAs b = true) :
+    a.nlri = b.nlri ∧ a.marker = b.marker ∧ a.ecs = b.ecs := by
+  unfold VPath.sameAs at h
+  rcases Bool.or_eq_true_iff.1 h with hu | hc
+  · rw [huid (eq_of_beq hu)]; exact ⟨rfl, rfl, rfl⟩
+  · exact sameContent a b hc
+
 /-- `onTableChange` in terms of the two heads -/
 def otc (s : Rtm) (O N : Option VPath) : List Msg :=
   match N with
-  | some b => if uidOf O == some b.uid then [] else rtcFilter s b false O
+  | some b => if sameAsHead O b then [] else rtcFilter s b false O
   | none => match O with
     | none => []
     | some o => rtcFilter s o true (some o)
@@ -481,7 +501,7 @@ theorem otc_nlri (s : Rtm) (O N : Option VPath) (n0 : Nat × Nat)
   cases N with
   | some b =>
     dsimp only at hx
-    by_cases hu : (uidOf O == some b.uid) = true
+    by_cases hu : sameAsHead O b = true
     · rw [if_pos hu] at hx; cases hx
     · rw [if_neg hu] at hx
       exact rtcFilter_nlri s b false O n0 (hN b rfl) hO x hx
@@ -514,7 +534,8 @@ def expect (s : Rtm) (O : Option VPath) : Option Nat :=
 
 theorem otc_view (s : Rtm) (v : View) (n : Nat × Nat) (O N : Option VPath)
     (hO : ∀ o, O = some o → o.nlri = n) (hN : ∀ b, N = some b → b.nlri = n)
-    (hsame : ∀ o b, O = some o → N = some b → o.uid = b.uid → o = b)
+    (hsame : ∀ o b, O = some o → N = some b → b.sameAs o = true →
+      b.marker = o.marker ∧ b.ecs = o.ecs)
     (hvn : v n = expect s O) :
     (v.apply (otc s O N)) n = expect s N := by
   unfold otc
@@ -535,13 +556,14 @@ theorem otc_view (s : Rtm) (v : View) (n : Nat × Nat) (O N : Option VPath)
   | some b =>
     have hbn := hN b rfl
     dsimp only
-    by_cases hu : (uidOf O == some b.uid) = true
+    by_cases hu : sameAsHead O b = true
     · rw [if_pos hu, apply_nil]
       cases O with
-      | none => simp [uidOf] at hu
+      | none => simp [sameAsHead] at hu
       | some o =>
-        have : o = b := hsame o b rfl rfl (by simpa [uidOf] using hu)
-        subst this; exact hvn
+        obtain ⟨e1, e2⟩ := hsame o b rfl rfl hu
+        dsimp only at hvn
+        rw [e1, e2]; exact hvn
     · rw [if_neg hu]
       by_cases hi : interested s b.ecs = true
       · rw [rtcFilter_int _ _ _ _ hi, if_pos hi, apply_single]
@@ -587,11 +609,13 @@ theorem rtc_table_step (t : Tbl) (s : Rtm) (v : View) (p : VPath) (wd : Bool)
     rw [hbest]
     show _ = expect s _
     apply otc_view s v p.nlri _ _ hold hnew
-    · intro o b ho hb hu
+    · intro o b ho hb hsa
+      refine (sameAs_content b o ?_ hsa).2
+      intro hu
       rcases hnewmem b hb with hm | ⟨e, hw⟩
-      · exact h.uid_uniq _ _ o b (mem_of_head? ho) hm hu
+      · exact h.uid_uniq _ _ b o hm (mem_of_head? ho) hu
       · subst e
-        exact absurd hu (hf hw _ o (mem_of_head? ho))
+        exact ((hf hw).1 _ o (mem_of_head? ho) hu.symm).symm
     · exact hv p.nlri
   · have hbest : (t.update p wd).best n = t.best n := by
       unfold Tbl.best; rw [update_dest_other _ _ _ _ hn]
